@@ -137,6 +137,15 @@ META = {
          "Bounded (labelled): termination, partition, disorder >= optimum and == optimum for covering windows of get_fast_alignment itself.",
    note="Two genuine defects repaired (non-termination on long overlapping units; stale finite window size). Assumed: get_fast_alignment's "
         "contract at the job's call site, sorted() permutation model, solver contract."),
+ "C17": dict(
+   technique="contract-based deductive verification of Alignment.check / SoftAlignment.check (three argument forms each) and of the "
+             "validating constructors, over by-value models of builtin set / Counter and of the nested occurrence table; exceptional "
+             "postconditions `raises E iff ...` make the verdict an exact characterisation",
+   level="Proved for all alignments with >= 1 unitary alignment: Alignment.check returns normally iff every (annotator, unit) of the "
+         "continuum is held by exactly one slot, raises SetPartitionError otherwise (ValueError for unequal widths); SoftAlignment.check "
+         "returns normally iff every pair is held at least once (KeyError iff a held pair is foreign, SetPartitionError iff one is missing); "
+         "check_validity=True applies exactly that check in both classes. Bounded (labelled): order independence, model conformance.",
+   note="Assumed: set / Counter / occurrence-table models, sortedcontainers. Domain notes (empty alignment, repeated foreign pair) in evidence.not_decided."),
  "C19": dict(
    technique="contract-based deductive verification of corpus_from_reference (both argument forms) and false_neg_shuffle over the Continuum "
              "contracts, every random draw unconstrained within its support; the other perturbations by a bounded stand-in",
